@@ -1000,7 +1000,7 @@ def _proj_fields(projs):
   return out
 
 
-def origins(body, op, passthrough=None, depth=0, _seen=None, fields=()):
+def origins(body, op, passthrough=None, depth=0, _seen=None, fields=(), named_terminal=False):
   """Precise backward trace of an operand (or place dict) to its terminal origins.
   Walks through copies/moves/refs/casts, aggregate field selection and pass-through calls.
   Terminal origins: call results, parameters (with field path), closure upvars, constants, aggregates."""
@@ -1029,6 +1029,8 @@ def origins(body, op, passthrough=None, depth=0, _seen=None, fields=()):
     ds = [d for d in body.defs().get(l, []) if d['kind'] == 'assign' and not d['proj']]
     if not ds:
       return [Origin('param', body, local=l, name=body.local_name(l), fields=pf)]
+  if named_terminal and body.local_name(l) is not None and depth > 0:
+    return [Origin('var', body, local=l, name=body.local_name(l), fields=pf)]
   ds = [d for d in body.defs().get(l, []) if d['kind'] != 'callmut']
   whole = [d for d in ds if not d['proj']]
   partial = [d for d in ds if d['proj']]
@@ -1037,23 +1039,23 @@ def origins(body, op, passthrough=None, depth=0, _seen=None, fields=()):
   for d in partial:
     dpf = tuple(f for f in _proj_fields(d['proj']) if not f.startswith('v:'))
     if pf[:len(dpf)] == dpf and d['kind'] == 'assign':
-      out.extend(_origin_of_def(body, d, pf[len(dpf):], pts, depth, _seen))
+      out.extend(_origin_of_def(body, d, pf[len(dpf):], pts, depth, _seen, named_terminal))
   if not whole and not out:
     nm = body.local_name(l)
     return [Origin('var' if nm else 'unknown', body, local=l, name=nm, fields=pf)]
   for d in whole:
-    out.extend(_origin_of_def(body, d, pf, pts, depth, _seen))
+    out.extend(_origin_of_def(body, d, pf, pts, depth, _seen, named_terminal))
   return out
 
 
-def _origin_of_def(body, d, pf, pts, depth, seen):
+def _origin_of_def(body, d, pf, pts, depth, seen, nt=False):
   import re as _re
   if d['kind'] == 'call':
     c = d['call']
     nm = c.name or ''
     tn = c.trait_fn or ''
     if c.args and any(_re.search(p, nm) or _re.search(p, tn) for p in pts):
-      return origins(body, c.args[0], pts, depth + 1, seen, ())
+      return origins(body, c.args[0], pts, depth + 1, seen, (), nt)
     return [Origin('call', body, call=c, fields=pf)]
   rv = d['rv']
   k = rv['k']
@@ -1061,9 +1063,9 @@ def _origin_of_def(body, d, pf, pts, depth, seen):
     o = rv['o']
     if 'k' in o:
       return [Origin('const', body, const=o['k'])]
-    return origins(body, o, pts, depth + 1, seen, pf)
+    return origins(body, o, pts, depth + 1, seen, pf, nt)
   if k in ('ref', 'rawptr'):
-    return origins(body, rv['p'], pts, depth + 1, seen, pf)
+    return origins(body, rv['p'], pts, depth + 1, seen, pf, nt)
   if k == 'agg':
     names = rv.get('fields')
     if pf:
@@ -1073,7 +1075,7 @@ def _origin_of_def(body, d, pf, pts, depth, seen):
       elif pf[0].isdigit() and int(pf[0]) < len(rv['ops']):
         idx = int(pf[0])
       if idx is not None and idx < len(rv['ops']):
-        return origins(body, rv['ops'][idx], pts, depth + 1, seen, pf[1:])
+        return origins(body, rv['ops'][idx], pts, depth + 1, seen, pf[1:], nt)
     return [Origin('agg', body, agg=rv, fields=pf)]
   if k == 'bin':
     return [Origin('bin', body, agg=rv, fields=pf)]
